@@ -27,9 +27,11 @@ from ..report import Report
 PROP = "C13"
 
 SPACES = {
-    "quick": [dict(nv=3, maxl=2, classes=("D", "U", "O"))],
+    "quick": [dict(nv=3, maxl=2, classes=("D", "U", "O")),
+              dict(nv=3, maxl=1, classes=("D", "U"), twin=True)],     # the last vertex carries the first one's uid
     "thorough": [dict(nv=3, maxl=3, classes=("D", "U", "O")),
-                 dict(nv=4, maxl=2, classes=("D", "U"))],
+                 dict(nv=4, maxl=2, classes=("D", "U")),
+                 dict(nv=3, maxl=2, classes=("D", "U"), twin=True)],
 }
 
 
